@@ -8,7 +8,7 @@ PROPS = ["Props/C14.v"]
 GEN = ["Effects.v"]
 MODEL_IS_SPEC = False
 RULE = ("random histories (10-40 operations) over up to 4 environments (plain, subclass with its own limits, with extra registered functions) and the module-level functions: "
-        "create environment, register a function, compile, apply a compiled query, find via environment, find via module; every document is deep-copied before each operation "
+        "create environment, register a function, compile, apply a compiled query, find via environment, find via module, mutate a document in place between applications; every document is deep-copied before each operation "
         "and compared afterwards (type-strict, plus identity of every container); every result is compared with the history model; earlier compiled queries are re-applied after later "
         "operations; non-trivial = history contains a registration or a subclass and at least one non-empty result; distinct = distinct histories")
 TRUSTED_BASE = [
@@ -34,6 +34,33 @@ def ids(v, acc):
     return acc
 
 
+def mutate_in_place(rng, v):
+    """change one leaf / add or remove one member somewhere inside v, keeping the same top-level object"""
+    for _ in range(6):
+        if isinstance(v, list):
+            if v and rng.random() < 0.6:
+                i = rng.randrange(len(v))
+                if isinstance(v[i], (list, dict)) and rng.random() < 0.6: v = v[i]; continue
+                v[i] = rng.choice([0, 1, 5, "a", None, True, 2.5]); return
+            v.append(rng.choice([0, 1, "a", None, [1], {"a": 1}])); return
+        if isinstance(v, dict):
+            if v and rng.random() < 0.6:
+                k = rng.choice(list(v))
+                if isinstance(v[k], (list, dict)) and rng.random() < 0.6: v = v[k]; continue
+                v[k] = rng.choice([0, 1, 5, "a", None, False, 2.5]); return
+            v[rng.choice(gen.SIMPLE_NAMES)] = rng.choice([0, 1, "a", None, [1], {"a": 1}]); return
+        return
+
+
+def fresh_result(make_env, text, doc):
+    """the same query text on a freshly built equivalent environment and an equal but distinct document"""
+    try:
+        return [1] + harness.enc_nodes(make_env().find(text, copy.deepcopy(doc)))
+    except Exception as ex:
+        enc = wire.enc_exception(ex)
+        return [1] + enc[:2] + ([0] if enc[0] == 1 else [])
+
+
 def cases(ctx, budget):
     import jsonpath_rfc9535 as jp
     from jsonpath_rfc9535.function_extensions import FilterFunction, ExpressionType
@@ -55,6 +82,8 @@ def cases(ctx, budget):
             docs.append(gen.rand_json(rng, depth=rng.randint(1, 3), fan=4, top=True))
         steps = rng.randint(10, 40)
         regs = []        # per env: names registered so far
+        applied = []     # (compiled query, document) pairs applied so far
+        pending_reapply = []
         for s in range(steps):
             r = rng.random()
             if not envs or r < 0.08 and len(envs) < 4:
@@ -67,6 +96,12 @@ def cases(ctx, budget):
                     max_int_index = hi
                 envs.append(E()); regs.append([])
                 ops.append([0, depth, lo, hi, 0]); outs.append([0]); log.append("new env depth=%d range=%d..%d" % (depth, lo, hi))
+                continue
+            if r > 0.93:
+                # mutate one document in place (the caller's own business; results must follow the new content)
+                d = rng.randrange(len(docs))
+                mutate_in_place(rng, docs[d]); log.append("mutate doc%d in place" % d)
+                pending_reapply.extend(c for c, dd in applied if dd == d)
                 continue
             e = rng.randrange(len(envs))
             names = gen.SIMPLE_NAMES
@@ -89,8 +124,13 @@ def cases(ctx, budget):
                 except Exception as ex:
                     o = [2] + wire.enc_exception(ex)
                 ops.append([2, e] + wire.enc_str(text)); outs.append(o); log.append("compile env%d %r -> %r" % (e, text, o[:3]))
-            elif r < 0.65 and compiled:
+            elif (r < 0.65 or pending_reapply) and compiled:
                 c = rng.randrange(len(compiled)); d = rng.randrange(len(docs))
+                if pending_reapply:
+                    c = pending_reapply.pop(); d = [dd for cc, dd in applied if cc == c][-1]     # the same query on the same, now modified, object
+                elif applied and rng.random() < 0.4:
+                    c, d = rng.choice(applied)
+                applied.append((c, d))
                 before = copy.deepcopy(docs[d]); idb = ids(docs[d], [])
                 try: o = [1] + harness.enc_nodes(compiled[c][1].find(docs[d]))
                 except Exception as ex: o = [1] + wire.enc_exception(ex)[:2] + ([0] if wire.enc_exception(ex)[0] == 1 else [])
@@ -110,6 +150,29 @@ def cases(ctx, budget):
                 except Exception as ex: o = [1] + wire.enc_exception(ex)[:2] + ([0] if wire.enc_exception(ex)[0] == 1 else [])
                 if wire.enc_json(before) != wire.enc_json(docs[d]): problems.append("module find modified its argument")
                 ops.append([5] + wire.enc_str(text) + wire.enc_json(before)); outs.append(o); log.append("module find %r doc%d -> %r" % (text, d, o[:3]))
+        # a compiled query whose filter looks at the root, applied to the same object before and after the object changes
+        if envs and rng.random() < 0.8:
+            e = rng.randrange(len(envs))
+            doc = {"limit": rng.randint(0, 5), "items": [rng.randint(0, 6) for _ in range(rng.randint(2, 5))], "tag": rng.choice(["a", "b"])}
+            text = rng.choice(["$.items[?@ <= $.limit]", "$.items[?@ > $['limit']]", "$..[?@ == $.limit]", "$.items[?$.tag == 'a' && @ != $.limit]",
+                               "$.items[?count($.items[?@ > 2]) > $.limit]"])
+            try:
+                cq = envs[e].compile(text); compiled.append((e, cq)); o = [2, 0, len(compiled) - 1]
+                ops.append([2, e] + wire.enc_str(text)); outs.append(o); log.append("compile env%d %r" % (e, text))
+                for rnd in range(3):
+                    before = copy.deepcopy(doc)
+                    try: o = [1] + harness.enc_nodes(cq.find(doc))
+                    except Exception as ex: o = [1] + wire.enc_exception(ex)[:2] + ([0] if wire.enc_exception(ex)[0] == 1 else [])
+                    ops.append([3, len(compiled) - 1] + wire.enc_json(before)); outs.append(o); log.append("apply cq%d to %r -> %r" % (len(compiled) - 1, before, o[:3]))
+                    import jsonpath_rfc9535 as _jp
+                    if regs[e] == [] and o != fresh_result(_jp.JSONPathEnvironment, text, before):
+                        problems.append("compiled query %r applied to %r after earlier applications gives a different result than a fresh compile on equal data" % (text, before))
+                    which = rng.random()
+                    if which < 0.5: doc["limit"] = rng.randint(0, 6)
+                    elif which < 0.8: doc["items"].append(rng.randint(0, 6))
+                    else: doc["tag"] = "b" if doc["tag"] == "a" else "a"
+            except Exception:
+                pass
         req = [12, 0, len(ops)]
         for o in ops: req += o
         out = [len(outs)]
